@@ -16,7 +16,11 @@ EXPLANATION = (
     "with a None filter (a comprehension filter or a guarded append loop), _create_species rejects pseudo-elements and every Species is truthy "
     "(no __bool__/__len__), so the filter drops None only; R7 heating '+', cooling '-', wrapped once by "
     "(gamma-1)*(..)/kerg/npar into row n_spec, IDX_TGAS = NSPECIES; R8 each back-end RHS function pastes ode.fex "
-    "through whitespace-only filters exactly once. Decides the shape of the generator, not values.")
+    "through whitespace-only filters exactly once; R12 no function of the package edits <reaction>.reactants / .products (or an alias of "
+    "one) in place outside the reaction's own construction -- the terms are assembled from those lists after the rates were built from them; "
+    "R6 also: _create_species returns None only for empty names and exact members of the known pseudo-elements (by return paths, predicate "
+    "helpers read through). A verdict VIOLATION needs a construct the analysis reads completely; values built where it did not follow "
+    "(unreadable helpers, foreign lists, unknown filters) answer UNRECOGNISED. Decides the shape of the generator, not values.")
 ASSUMPTIONS = [
     "str.join / f-string / list semantics of Python; Jinja for-loops iterate their sequence in order",
     "species.index(x) returns the slot of x (uniqueness of slots is C09)",
